@@ -4,8 +4,7 @@ from gen import views as V
 from spec import wire_spec as W
 
 
-def run(tier, only=None):
-    chk = Check('C17', tier)
+def build(tier, only, chk):
     jobs = []
     for gi, g in enumerate(W.SHARE_GROUPS):
         name = g[0][1] if len({n for _, n in g}) == 1 else '%s-%s' % (g[0][1], g[1][1])
@@ -17,6 +16,12 @@ def run(tier, only=None):
                             unwindset=WALKER, timeout=1200, extra_sources=extra,
                             meta={'group': ['%s.%s' % x for x in g], 'pairs': n, 'buffer_bytes': L,
                                   'domain': 'all buffers x all 64-bit values'}))
+    return jobs
+
+
+def run(tier, only=None):
+    chk = Check('C17', tier)
+    jobs = build(tier, only, chk)
     chk.run(jobs)
     chk.assumptions = STD_ASSUME + ['sharing groups are exactly the ones the property names (spec/wire_spec.py SHARE_GROUPS)']
     return chk.finish(
